@@ -91,8 +91,14 @@ def items(draw, depth, counter):
     out = []
     for _ in range(draw(st.integers(1, 3))):
         if depth > 0 and draw(st.integers(0, 2)) == 0:
+            counter[1] += 1
             out.append({"scope": draw(st.sampled_from(
                 ["on", "off", "true", "false", None])),
+                # what else the element between switch and site is
+                "wrap": draw(st.sampled_from(
+                    [None, None, None, "macro", "fill", "cond", "define",
+                     "block", "repeat1"])),
+                "id": counter[1],
                 "items": draw(items(depth - 1, counter))})
         else:
             out.append(draw(site(counter)))
@@ -101,7 +107,7 @@ def items(draw, depth, counter):
 
 @st.composite
 def cases(draw):
-    counter = [0]
+    counter = [0, 0]
     sc = values.scalars()
     return {
         "items": draw(items(3, counter)),
@@ -218,8 +224,30 @@ def build(case, env, k1=False):
                 on2 = on if sc is None else sc in ("on", "true")
                 attr = "" if sc is None else ' meta:interpolation="%s"' % sc
                 s2, e2 = walk(it["items"], on2)
-                src += "<div" + attr + ">" + s2 + "</div>"
-                exp += "<div>" + e2 + "</div>"
+                w = it.get("wrap")
+                k = it.get("id", 0)
+                if w == "macro":
+                    # a macro defined (and rendered) in place
+                    attr += ' metal:define-macro="m%d"' % k
+                elif w == "cond":
+                    attr += ' tal:condition="True"'
+                elif w == "define":
+                    attr += ' tal:define="w%d 1"' % k
+                elif w == "repeat1":
+                    attr += ' tal:repeat="w%d (1,)"' % k
+                if w == "block":
+                    src += "<tal:b" + attr + ">" + s2 + "</tal:b>"
+                    exp += e2
+                elif w == "fill":
+                    # the subtree is a slot filler: it is compiled where it
+                    # is written (its switch state is the lexical one)
+                    src += ('<div metal:use-macro="lib.macros[\'m\']">'
+                            '<div' + attr + ' metal:fill-slot="s">' + s2 +
+                            "</div></div>")
+                    exp += "<x><div>" + e2 + "</div></x>"
+                else:
+                    src += "<div" + attr + ">" + s2 + "</div>"
+                    exp += "<div>" + e2 + "</div>"
                 continue
             body = site_source(it)
             out = render_site(it, env, on, comment_on, log, k1)
@@ -339,6 +367,8 @@ class Interp(Part):
             return v
         env2 = values.env(case["bindings"])
         env2["rec"] = rec
+        env2["lib"] = PageTemplate(
+            '<x metal:define-macro="m"><y metal:define-slot="s"/></x>')
         o = run(PageTemplate, src,
                 enable_comment_interpolation=case["comment_interpolation"])
         detail = {"source": src, "bindings": case["bindings"],
